@@ -1,12 +1,143 @@
-(* C03 — property theorems only (zix_hash is a faithful, always-terminating map for any hash function). *)
+(* C03 — property theorems only.
+   "zix_hash is a faithful, always-terminating map for any hash function."
+
+   Model: coq/HashModel.v follows /repo/src/hash.c as it is now (after the fix: commits bd9d1cb
+   full-cycle guard, 746ddc6 rehash by key, 1f365c2 shrink roll-back).  Spec: coq/HashSpec.v, an
+   association list.  Every theorem quantifies over an ARBITRARY hash function hf : Z -> Z (the code of
+   a key is hf k mod 2^64), over every history of API calls (insert, plan_insert /
+   plan_insert_prehashed + insert_at, find, find_record, remove, find + erase, size, iteration) and
+   over every allocation oracle o : list bool (false = the calloc of a grow/shrink returns NULL). *)
 From Coq Require Import ZArith List Bool Permutation.
-From Zix Require Import HashSpec HashModel.
+From Zix Require Import HashSpec HashModel HashProofsBase HashProofsProbe HashProofsOps HashProofsCalls
+  HashProofsHist HashProofsRoles.
 Import ListNotations.
 Local Open Scope Z_scope.
 
-(* regression: the old non-termination witness (n = 8, identity hash, every Empty slot consumed by
-   tombstones) returns "absent" in the model of the repaired code *)
-Theorem hash_old_witness_terminates :
+(* a state of the table that some history of calls reaches from zix_hash_new *)
+Definition reachable (hf : Z -> Z) (st : hstate) : Prop :=
+  exists cs o l pend, run hf (hash_new, None) cs o = (Ret l, (st, pend)).
+
+(* (H1) count = number of records; (H2) count < n/2 + n/8; (H3) no Empty slot between the home slot
+   of a record and the slot holding it; (H4) keys of the records pairwise distinct -- plus the shape
+   (n a power of two >= 4, mask = n-1, n slots) and "the stored code is the code of the key".
+   Invariant of every reachable state, for every hash function and every allocation oracle. *)
+Theorem hash_invariants :
+  forall hf st, reachable hf st ->
+    (exists k, 2 <= k /\ h_n st = 2 ^ k) /\ h_mask st = h_n st - 1 /\
+    Z.of_nat (length (h_ent st)) = h_n st /\
+    h_count st = Z.of_nat (length (live_recs (h_ent st))) /\
+    h_count st < h_n st / 2 + h_n st / 8 /\
+    chain_ok (h_n st) (h_ent st) /\
+    NoDup (map rkey (live_recs (h_ent st))) /\
+    codes_ok hf (h_ent st).
+Proof.
+  intros hf st (cs & o & l & pend & R).
+  destruct (run_ok hf cs hash_new None o (Inv_new hf) Logic.I) as (l' & st' & pend' & R' & _ & I & _).
+  rewrite R in R'. inversion R'; subst.
+  destruct I as ((P & M & L) & H1 & H2 & (_ & CH & ND & CO)). repeat split; assumption.
+Qed.
+Print Assumptions hash_invariants.
+
+(* Every history runs to completion and its results are results the association list allows:
+   insert answers EXISTS iff the key is present, else the record is stored (or NO_MEM and nothing
+   changes); find / find_record / plan+record_at return exactly the record the map holds under the
+   key (the same pointer: records carry their identity) and end / NULL for an absent key; remove and
+   find+erase return the stored record and delete it, NOT_FOUND for an absent key; size = number of
+   records; iteration returns each record once. *)
+Theorem hash_refines_map :
+  forall hf cs o, exists l rs,
+    run hf (hash_new, None) cs o = (Ret l, rs) /\ spec_run [] None cs (map fst l).
+Proof.
+  intros hf cs o.
+  destruct (run_ok hf cs hash_new None o (Inv_new hf) Logic.I) as (l & st' & pend' & R & S & _).
+  exists l, (st', pend'). split; assumption.
+Qed.
+Print Assumptions hash_refines_map.
+
+(* begin .. next .. end visits every record of the table exactly once (and nothing else), in slot
+   order; distinct iterators; the records visited are pairwise distinct *)
+Theorem hash_iter_each_once :
+  forall hf st, reachable hf st ->
+    exists l, iterate st = Ret l /\
+      NoDup (map fst l) /\
+      map snd l = map Some (live_recs (h_ent st)) /\
+      NoDup (live_recs (h_ent st)).
+Proof.
+  intros hf st (cs & o & l & pend & R).
+  destruct (run_ok hf cs hash_new None o (Inv_new hf) Logic.I) as (l' & st' & pend' & R' & _ & I & _).
+  rewrite R in R'. inversion R'; subst.
+  exists (live_idx (h_ent st') 0). split; [apply iterate_ok; apply I|].
+  split; [apply live_idx_nodup|]. split; [apply live_idx_snd|].
+  destruct I as (_ & _ & _ & (_ & _ & ND & _)). eapply NoDup_map_inv. exact ND.
+Qed.
+Print Assumptions hash_iter_each_once.
+
+(* No call of any history fails to return (OutOfFuel = a probe loop that never ends) or writes past
+   the array (Undef), whatever the hash function and the allocation failures. *)
+Theorem hash_calls_terminate :
+  forall hf cs o,
+    fst (run hf (hash_new, None) cs o) <> OutOfFuel /\ fst (run hf (hash_new, None) cs o) <> Undef.
+Proof.
+  intros hf cs o. destruct (hash_refines_map hf cs o) as (l & rs & R & _). rewrite R. simpl.
+  split; discriminate.
+Qed.
+Print Assumptions hash_calls_terminate.
+
+(* With the full-cycle guard the look-ups and the insertion plans terminate in ANY table of a
+   power-of-two size, reachable or not (e.g. one without a single Empty slot): the measure is the
+   number of slots not yet visited, no invariant is needed. *)
+Theorem hash_probes_terminate_in_any_state :
+  forall hf st, shape_ok st ->
+    (forall k, fst (find hf st k) <> OutOfFuel /\ fst (find_record hf st k) <> OutOfFuel) /\
+    (forall key, fst (plan_insert hf st key) <> OutOfFuel) /\
+    (forall code pred ud, fst (plan_insert_prehashed st code pred ud) <> OutOfFuel).
+Proof. exact probes_terminate. Qed.
+Print Assumptions hash_probes_terminate_in_any_state.
+
+(* Argument roles, for every call in every state: key_func only receives records of the table or
+   the record of the call; hash_func only the key of the call; equal_func / the match predicate
+   receives (key of a record of the table, key of the call) -- during a resize (key of a record,
+   key of a record).  [roles_okb] (HashModel.v) is the checker the drivers also run on the real log. *)
+Theorem hash_callback_roles :
+  forall hf st pend c o, roles_okb st c (snd (fst (step hf (st, pend) c o))) = true.
+Proof. exact step_roles. Qed.
+Print Assumptions hash_callback_roles.
+
+(* the same along every history: each call's log obeys the roles with respect to the table the
+   call was made on -- whose records are, by hash_refines_map, exactly the records the user
+   inserted and has not removed *)
+Theorem hash_callback_roles_history :
+  forall hf cs o, roles_run hf (hash_new, None) cs o = true.
+Proof.
+  intros hf cs. generalize (hash_new, @None (plan * Z)).
+  induction cs as [|c cs IH]; intros rs o; [reflexivity|].
+  cbn [roles_run]. pose proof (step_roles hf (fst rs) (snd rs) c o) as R.
+  rewrite <- surjective_pairing in R.
+  destruct (step hf rs c o) as [[x lg] o']. simpl in R. rewrite R. simpl.
+  destruct x as [[res rs']| |]; auto.
+Qed.
+Print Assumptions hash_callback_roles_history.
+
+(* Two-step insertion: on the same (unmodified) table, zix_hash_insert_at with the plan made by
+   zix_hash_plan_insert -- or by zix_hash_plan_insert_prehashed with the key's code and equality --
+   for the record's key returns the same status, produces the same table and consumes the same
+   allocations as zix_hash_insert.  Holds in every state. *)
+Theorem hash_plan_then_insert_at :
+  forall hf st r o,
+    (forall p, fst (plan_insert hf st (KArg (rkey r))) = Ret p ->
+       fst (fst (insert_at st p r o)) = fst (fst (insert hf st r o)) /\
+       snd (insert_at st p r o) = snd (insert hf st r o)) /\
+    fst (plan_insert_prehashed st (code_of hf (rkey r)) (Z.eqb (rkey r)) (KArg (rkey r))) =
+      fst (plan_insert hf st (KArg (rkey r))) /\
+    (fst (plan_insert hf st (KArg (rkey r))) = OutOfFuel -> fst (fst (insert hf st r o)) = OutOfFuel).
+Proof. exact plan_then_insert_at. Qed.
+Print Assumptions hash_plan_then_insert_at.
+
+(* ---- non-vacuity and regressions (closed computations) *)
+
+(* the old non-termination witness (bd9d1cb): n = 8, identity hash; after it no Empty slot is
+   left, and the three look-ups of an absent key return "absent" *)
+Example hash_old_witness_terminates :
   let ins k := OInsert (k, k) in
   let hist := [ins 0; ins 1; ins 2] ++ flat_map (fun k => [ins k; ORemove k]) [3; 4; 5; 6; 7]
               ++ [OFind 100; OFindRec 100; ORemove 100] in
@@ -14,4 +145,20 @@ Theorem hash_old_witness_terminates :
                ~ In Empty (h_ent (fst rs)) /\
                map fst (skipn 13 l) = [RFind None None; RRec None; RRemoved NOT_FOUND None].
 Proof. vm_compute. do 2 eexists. split; [reflexivity|]. split; [|reflexivity]. intuition discriminate. Qed.
-Print Assumptions hash_old_witness_terminates.
+
+(* the old role witness (746ddc6): constant hash, ten inserts: all ten records are found *)
+Example hash_const_ten_inserts :
+  let hist := map (fun k => OInsert (k, k)) [1; 2; 3; 4; 5; 6; 7; 8; 9; 10] ++ [OSize; OFindRec 3] in
+  exists l rs, run hf_const (hash_new, None) hist [] = (Ret l, rs) /\
+               map fst (skipn 10 l) = [RSize 10; RRec (Some (3, 3))].
+Proof. vm_compute. do 2 eexists. split; reflexivity. Qed.
+
+(* a reachable state with records, tombstones and a failed shrink behind it *)
+Example hash_reachable_nontrivial :
+  exists st, reachable hf_mod4 st /\ h_count st = 4 /\ h_n st = 16 /\ In Tomb (h_ent st).
+Proof.
+  eexists. split.
+  - exists (map (fun k => OInsert (k, k)) [0; 1; 2; 3; 4; 5] ++ [ORemove 1; ORemove 2; ORemove 3; OInsert (9, 9)]),
+           [true; true; false]. do 2 eexists. vm_compute. reflexivity.
+  - vm_compute. intuition.
+Qed.
